@@ -74,6 +74,16 @@ theorem Bridge_session (pw : Bool) (hs : VHandshake) (hwf : hs.WF pw) (ms : List
   obtain ⟨m, hm, rfl⟩ := List.mem_map.1 hv
   exact ⟨toV_wf m (h m hm).1, (h m hm).2⟩
 
+/-- ... and the proxy's parser never raises on it, so recording never stops and nothing disturbs the relay (C16) -/
+theorem Bridge_no_raise (pw : Bool) (hs : VHandshake) (hwf : hs.WF pw) (ms : List C2SMsg)
+    (h : ∀ m ∈ ms, m.WF ∧ m.Recordable) (cs : List Bytes)
+    (hcs : cs.flatten = hs.wire ++ ms.flatMap encodeC2S) :
+    ∀ e ∈ (feedAll proxyMachine (pxInit pw) cs).2.1, ∀ c, e ≠ .raise c := by
+  refine C16_v2s_total pw hs hwf (ms.map C2SMsg.toV) ?_ cs (by rw [hcs, toV_flatMap_wire])
+  intro v hv
+  obtain ⟨m, hm, rfl⟩ := List.mem_map.1 hv
+  exact ⟨toV_wf m (h m hm).1, (h m hm).2⟩
+
 /-- what the recorder sees of one client message, spelled out -/
 theorem Bridge_events (m : C2SMsg) : m.toV.events = match m with
     | .setPixelFormat pf => [.setPixelFormat pf]
